@@ -199,14 +199,22 @@ def _mesh(case, mesh):
     kind, par = mesh
     if case["dim"] == 2:
         dom = pp.Domain({"xmin": 0, "xmax": 1, "ymin": 0, "ymax": 1})
-        fr = [pp.LineFracture(np.array(s, dtype=float).T / 4.0) for s in case["fracs"]]
+        pts = [np.array(s, dtype=float).T / 4.0 for s in case["fracs"]]
+        fr = [pp.LineFracture(p) for p in pts]
     else:
         dom = pp.Domain({"xmin": 0, "xmax": 1, "ymin": 0, "ymax": 1, "zmin": 0, "zmax": 1})
-        fr = [pp.PlaneFracture(_rect_pts(r)) for r in case["fracs"]]
+        pts = [_rect_pts(r) for r in case["fracs"]]
+        fr = [pp.PlaneFracture(p) for p in pts]
+    before = [p.copy() for p in pts]
     net = pp.create_fracture_network(fr, dom)
     if kind == "cart":
-        return pp.create_mdg("cartesian", {"cell_size": 1.0 / par}, net)
-    return pp.create_mdg("simplex", {"cell_size": par}, net)
+        mdg = pp.create_mdg("cartesian", {"cell_size": 1.0 / par}, net)
+    else:
+        mdg = pp.create_mdg("simplex", {"cell_size": par}, net)
+    # the network meshed must be the network given: the caller's point arrays are inputs
+    if any(not np.array_equal(a, b) for a, b in zip(before, pts)):
+        raise ValueError("meshing modified the fracture point arrays passed by the caller")
+    return mdg
 
 
 def _rect_pts(r):
